@@ -15,7 +15,7 @@ import time
 import traceback
 
 from . import common
-from .vmtrace import TRACER, Conv, ProbeError, RecordingNames, tree_to_spec
+from .vmtrace import TRACER, Conv, ProbeError, RecordingNames, tree_to_spec, build_op
 
 
 def make_host(name, beh, conv):
@@ -52,12 +52,12 @@ def make_host(name, beh, conv):
     return f
 
 
-def host_spec(host, conv):
+def host_spec(host, ret_refs):
     out = {}
     for k, b in host.items():
         b2 = dict(b)
         if b['h'] == 'probe':
-            b2['ret'] = conv.scalar(b.get('ret'))
+            b2['ret'] = ret_refs[k]
             b2['raises'] = bool(b.get('raises'))
         out[k] = b2
     return out
@@ -92,7 +92,10 @@ def run_scenario(scn, tid, parser_factory=None, fresh=None):
     for rn in names_py:
         for k, f in hostfns.items():
             rn[k] = f
-    names0_list, heap0 = conv.initial(names_py)
+    # values returned by probes are host objects too: project them together with the names
+    rets = {k: b.get('ret') for k, b in host.items() if b['h'] == 'probe'}
+    names0_list, heap0 = conv.initial(names_py + [rets])
+    ret_refs = names0_list.pop()
     names0 = {'n%d' % (i + 1): nm for i, nm in enumerate(names0_list)}
     counter = [0]
     nodeids = {}
@@ -109,12 +112,13 @@ def run_scenario(scn, tid, parser_factory=None, fresh=None):
     parser.parse = capturing_parse
     try:
         return _run_calls(scn, tid, impl, conv, parser, orig_parse, captured, hostfns, names_py, names0, heap0,
-                          counter, nodeids, host)
+                          counter, nodeids, host, ret_refs)
     finally:
         del parser.parse          # restore the class method on a shared parser
 
 
-def _run_calls(scn, tid, impl, conv, parser, orig_parse, captured, hostfns, names_py, names0, heap0, counter, nodeids, host):
+def _run_calls(scn, tid, impl, conv, parser, orig_parse, captured, hostfns, names_py, names0, heap0, counter, nodeids, host,
+               ret_refs):
     calls = []
     events_all = []
     anon = 0
@@ -134,10 +138,18 @@ def _run_calls(scn, tid, impl, conv, parser, orig_parse, captured, hostfns, name
             kw['max_ops_evaluated'] = c['max']
         ast_spec = []
         if c.get('ast'):
+            # ast: list of (name, x) in binding order; x is source text of a lambda expression, or
+            # {'params': [...], 'body': source of a (multi-line) body}, or {'tree': specification tree}
             astn = {}
-            for k, src in c['ast'].items():
-                t = orig_parse(src)
-                node = t.lines[0]
+            items = c['ast'].items() if isinstance(c['ast'], dict) else c['ast']
+            for k, x in items:
+                if isinstance(x, str):
+                    node = orig_parse(x).lines[0]
+                elif 'tree' in x:
+                    node = build_op(impl, x['tree'])
+                else:
+                    A = impl['ast_ops']
+                    node = A.LambdaOp(args=[A.NameOp(p) for p in x['params']], expr=orig_parse(x['body']))
                 ast_spec.append({'name': k, 'tree': tree_to_spec(impl, node, conv, counter, nodeids)})
                 astn[k] = node
             kw['ast_names'] = astn
@@ -191,7 +203,7 @@ def _run_calls(scn, tid, impl, conv, parser, orig_parse, captured, hostfns, name
                       'src': c['src']})
         if TRACER.overflow:
             break
-    case = {'tid': tid, 'calls': calls, 'names0': names0, 'heap0': heap0, 'host': host_spec(host, conv),
+    case = {'tid': tid, 'calls': calls, 'names0': names0, 'heap0': heap0, 'host': host_spec(host, ret_refs),
             'events': events_all, 'overflow': bool(TRACER.overflow),
             'functions_frozen': TRACER.functions_digest() == digest0}
     if 'bound' in scn:
